@@ -467,8 +467,8 @@ class DictKeysV(V):
 
 
 class SymMapV(V):
-    """A dict built by item assignment in a loop: heap[ref] = [Array(Py -> Py), count]; only d[k] = v is supported,
-    plus reads through .get / [] by the *verification code* (not by repository code)."""
+    """A dict built by item assignment in a loop: heap[ref] = [vals: Array(Py -> Py), count, present: Array(Py -> Bool)].
+    Repository code may do d[k] = v, d.get(k, default), d[k]; verification code reads the arrays."""
     kind = "symmap"
 
     def __init__(self, ref):
@@ -481,14 +481,41 @@ class SymMapV(V):
         k, v = E.inject(key, st), E.inject(val, st)
         if k is None or v is None:
             raise OutOfReach("symbolic dict item assignment kinds")
-        a, n = self.get(st)
-        st.heap[self.ref] = [z3.Store(a, k, v), n + 1]
+        r = self.get(st)
+        st.heap[self.ref] = [z3.Store(r[0], k, v), r[1] + 1, z3.Store(r[2], k, True)]
         return [Ev(st, NONE)]
+
+    def lookup(self, E, key, st, default):
+        k = E.inject(key, st)
+        if k is None:
+            raise OutOfReach("symbolic dict lookup key kind")
+        r = self.get(st)
+        out = []
+        for b, present in E.branch(st, z3.Select(r[2], k)):
+            if present:
+                out.append(Ev(b, OpaqueV(z3.Select(b.heap[self.ref][0], k), tag="mapval")))
+            elif default is None:
+                out.append(Ev(b, exc=ExcV("KeyError", [key])))
+            else:
+                out.append(Ev(b, default))
+        return out
+
+    def get_item(self, E, idx, st, fx):
+        return self.lookup(E, idx, st, None)
+
+    def call_method(self, E, name, st, args, kwargs, fx, site):
+        if name == "get":
+            return self.lookup(E, args[0], st, args[1] if len(args) > 1 else NONE)
+        raise OutOfReach("method %s on a dict built in a loop" % name)
+
+    def truth(self, E, st):
+        return self.get(st)[1] > 0
 
 
 def new_symmap(st, arr=None, n=None):
     arr = arr if arr is not None else z3.Const(fresh_name("map"), z3.ArraySort(Py, Py))
-    return SymMapV(st.alloc([arr, n if n is not None else z3.IntVal(0)]))
+    present = z3.Const(fresh_name("present"), z3.ArraySort(Py, z3.BoolSort()))
+    return SymMapV(st.alloc([arr, n if n is not None else z3.IntVal(0), present]))
 
 
 class ConstMapV(V):
